@@ -7,10 +7,14 @@ import (
 
 // Prelude is run once (one outermost call that queues no job) before a program; the host provides
 // log(tag[, value]), probe(), gonative(f), gores(k, v), gorej(k, v).
-const Prelude = `var p0, p1, p2, p3, p4, R0, R1, R2, R3, R4, J0, J1, J2, J3, J4;
-class MyP extends Promise { constructor(e) { log("ctorP"); super(e); } }
+const PreludeVars = `var p0, p1, p2, p3, p4, R0, R1, R2, R3, R4, J0, J1, J2, J3, J4;
+`
+
+const PreludeClasses = `class MyP extends Promise { constructor(e) { log("ctorP"); super(e); } }
 class MyQ extends Promise { constructor(e) { log("ctorQ"); super(e); } static get [Symbol.species]() { return Promise; } }
-function mkT(id, kind, x) {
+`
+
+const PreludeThenables = `function mkT(id, kind, x) {
   var y = (typeof x === "number") ? x + 1 : x;
   var t = {__t: id};
   if (kind === "getterThrows") { Object.defineProperty(t, "then", {get: function() { log("tg" + id); probe(); throw x; }}); return t; }
@@ -30,6 +34,9 @@ function mkT(id, kind, x) {
   return t;
 }
 `
+
+// Prelude is the whole prelude (the check runs only the parts a program uses).
+const Prelude = PreludeVars + PreludeClasses + PreludeThenables
 
 // Printer options.
 type PrintOpts struct {
